@@ -22,6 +22,8 @@ import (
 	"fmt"
 	"math"
 	"math/big"
+	"runtime"
+	"runtime/debug"
 	"sort"
 
 	"github.com/golang/geo/r3"
@@ -296,8 +298,10 @@ func checkQuadInner(c quad) ev.Outcome {
 	// input space (computed exactly from the case) where that cause applies.
 	finding := func(kind string) string {
 		switch {
-		case collinear && kind == "order" && sameDir:
-			return "collinear-samedir-order"
+		case collinear && sameDir:
+			// the symbolic "exactly two endpoints are interior" argument of the
+			// collinear branch does not hold for coincident directions
+			return "collinear-samedir"
 		case hemiIll && (kind == "wrong-hemisphere" || kind == "negated-endpoint"):
 			return "antipodal-hemisphere"
 		case collinear && normalUnderflow:
@@ -559,16 +563,23 @@ func genFromTuple(t *rapid.T) quad {
 // b1 free: crossings decided by the symbolic perturbation, X* = ±b0.
 func genTouching(t *rapid.T) quad {
 	ps := gen.CoplanarTuple(t, "c", 3)
+	// make the point that lies between the other two the touching endpoint
+	v := []exact.Vec{exact.IntVec(ps[0].Vector), exact.IntVec(ps[1].Vector), exact.IntVec(ps[2].Vector)}
+	for _, r := range [][3]int{{0, 1, 2}, {0, 2, 1}, {1, 2, 0}} {
+		if inClosedEdge(v[r[2]], v[r[0]], v[r[1]]) {
+			ps = []s2.Point{ps[r[0]], ps[r[1]], ps[r[2]]}
+			break
+		}
+	}
 	b1 := gen.Related(t, "b1", ps)
+	if rapid.Bool().Draw(t, "fresh") {
+		b1 = gen.Base(t, "b1f")
+	}
 	q := []s2.Point{ps[0], ps[1], ps[2], b1}
-	switch rapid.IntRange(0, 2).Draw(t, "role") {
-	case 0:
-		return mkQuad(q[0], q[1], q[2], q[3])
-	case 1:
-		return mkQuad(q[0], q[2], q[1], q[3])
-	default:
+	if rapid.Bool().Draw(t, "role") {
 		return mkQuad(q[2], q[3], q[0], q[1])
 	}
+	return mkQuad(q[0], q[1], q[2], q[3])
 }
 
 // embed puts the 2-D unit vector (a,b) into one of the 9 planes that survive
@@ -620,6 +631,11 @@ func collinear4(t *rapid.T) (pts [4]s2.Point) {
 		pos[i] = t0 + s*pow10(t, l+".e", lo, 0.19)
 	}
 	sort.Float64s(pos)
+	for i := 1; i < 4; i++ {
+		if pos[i] <= pos[i-1] { // keep the four positions distinct
+			pos[i] = pos[i-1] + math.Abs(pos[i-1])*0.25 + 1e-300
+		}
+	}
 	for i, tt := range pos {
 		a, b := math.Cos(tt), math.Sin(tt)
 		for k := 0; k < rot; k++ {
@@ -634,14 +650,14 @@ func genCollinear(t *rapid.T) quad {
 	p := collinear4(t)
 	// nested pairs cross only when the symbolic perturbation says so (mostly
 	// not), so they are drawn less often than interleaved ones.
-	switch rapid.IntRange(0, 7).Draw(t, "pair") {
+	switch rapid.IntRange(0, 9).Draw(t, "pair") {
 	case 0:
 		return mkQuad(p[0], p[3], p[1], p[2]) // nested
 	case 1:
 		return mkQuad(p[1], p[2], p[3], p[0]) // nested, roles swapped
-	case 2, 3:
+	case 2, 3, 4:
 		return mkQuad(p[2], p[0], p[1], p[3]) // interleaved, a reversed
-	case 4:
+	case 5, 6:
 		return mkQuad(p[1], p[3], p[2], p[0]) // interleaved, roles swapped, b reversed
 	default:
 		return mkQuad(p[0], p[2], p[1], p[3]) // interleaved
@@ -661,8 +677,44 @@ func genNearCollinear(t *rapid.T) quad {
 	return mkQuad(ps[0], ps[1], ps[2], ps[3])
 }
 
+// genMirror: edge b is the mirror image of edge a in a coordinate plane that a
+// crosses: the two edges have exactly the same length (the tie that the
+// "longer edge first" ordering has to break deterministically) and cross on
+// the mirror plane.
+func genMirror(t *rapid.T) quad {
+	a0 := gen.Base(t, "a0")
+	var a1 s2.Point
+	if rapid.Bool().Draw(t, "near") {
+		a1 = gen.Related(t, "a1", []s2.Point{a0})
+	} else {
+		a1 = gen.Base(t, "a1")
+	}
+	k := rapid.IntRange(0, 2).Draw(t, "axis")
+	co := func(p s2.Point) float64 { return [3]float64{p.X, p.Y, p.Z}[k] }
+	flip := func(p s2.Point) s2.Point {
+		v := p.Vector
+		switch k {
+		case 0:
+			v.X = -v.X
+		case 1:
+			v.Y = -v.Y
+		default:
+			v.Z = -v.Z
+		}
+		return s2.Point{Vector: v}
+	}
+	if co(a0)*co(a1) > 0 {
+		a1 = flip(a1) // put a1 on the other side of the mirror
+	}
+	b0, b1 := flip(a0), flip(a1)
+	if rapid.Bool().Draw(t, "rev") {
+		b0, b1 = b1, b0
+	}
+	return mkQuad(a0, a1, b0, b1)
+}
+
 func genGeneric(t *rapid.T) quad {
-	switch rapid.IntRange(0, 9).Draw(t, "family") {
+	switch rapid.IntRange(0, 10).Draw(t, "family") {
 	case 0, 1, 2, 3:
 		return genOnSphere(t, false)
 	case 4:
@@ -671,6 +723,8 @@ func genGeneric(t *rapid.T) quad {
 		return genFromTuple(t)
 	case 7:
 		return genTouching(t)
+	case 8:
+		return genMirror(t)
 	default:
 		return genNearCollinear(t)
 	}
@@ -818,13 +872,19 @@ func genTiny(t *rapid.T) quad {
 const ruleCommon = " Kept only when CrossingSign==Cross (the documented domain). Oracle: exact integer (a0×a1)×(b0×b1), sign fixed by the edge bisectors; unit length, sin² of the angle to the exact point, hemisphere and equality of the 8 call forms are decided exactly; intersectionStable (when it accepts) and intersectionExact are also judged alone. Non-trivial = stable path rejected (exact path used), or sin(crossing angle) < 1e-9, or an edge shorter than 1e-100."
 
 func init() {
+	// rapid is single-threaded and the oracle allocates many short-lived big
+	// integers; with the default GOMAXPROCS every one of the driver's 8/16
+	// processes runs a 16-way parallel GC and the machine spends its time in
+	// the kernel. Two Ps and a lazier GC make the same work ~10x cheaper.
+	runtime.GOMAXPROCS(2)
+	debug.SetGCPercent(800)
 	ev.Define("generic", ev.Options{
-		Rule: "Constructed crossings: crossing point X from the shared point families, two tangent directions at 90°…1e-15, four endpoint distances (uniform, log-uniform 1e-17…π/2, π/2−1e-17…); edges of nearly 180° (endpoints within 1e-17…0.1 of antipodal); a0,a1,b0 from the related-point generator with b1 beyond a point of edge a; b0 exactly on the great circle of a (SoS-decided crossings at an endpoint); exactly collinear quadruples with 1–3 points moved by ≤3 ulps." + ruleCommon,
-		Quick: 250000, Thorough: 10000000}, genGeneric, checkQuad)
+		Rule:  "Constructed crossings: crossing point X from the shared point families, two tangent directions at 90°…1e-15, four endpoint distances (uniform, log-uniform 1e-17…π/2, π/2−1e-17…); edges of nearly 180° (endpoints within 1e-17…0.1 of antipodal); a0,a1,b0 from the related-point generator with b1 beyond a point of edge a; b0 exactly on the great circle of a (SoS-decided crossings at an endpoint); exactly collinear quadruples with 1–3 points moved by ≤3 ulps; an edge and its mirror image in a coordinate plane (exactly equal lengths)." + ruleCommon,
+		Quick: 600000, Thorough: 28000000}, genGeneric, checkQuad)
 	ev.Define("tiny_edges", ev.Options{
-		Rule: "Edges of length 1e-300…1e-9: all four endpoints (1,y,z) in the tangent plane next to a coordinate axis (crossing point 0 or tiny, any direction, crossing angle 90°…1e-15, four independent or common-scale distances, optionally far second endpoints), and a long edge exactly in a coordinate plane crossed by a tiny edge (x,y,∓t) at the start, middle or end of the long edge; all under signed axis permutations." + ruleCommon,
-		Quick: 150000, Thorough: 6000000}, genTiny, checkQuad)
+		Rule:  "Edges of length 1e-300…1e-9: all four endpoints (1,y,z) in the tangent plane next to a coordinate axis (crossing point 0 or tiny, any direction, crossing angle 90°…1e-15, four independent or common-scale distances, optionally far second endpoints), and a long edge exactly in a coordinate plane crossed by a tiny edge (x,y,∓t) at the start, middle or end of the long edge; all under signed axis permutations." + ruleCommon,
+		Quick: 360000, Thorough: 16000000}, genTiny, checkQuad)
 	ev.Define("collinear", ev.Options{
-		Rule: "Four points exactly on one great circle (9 planes that survive normalisation; positions ±1e-300…1.5 from an axis or ±1e-16…1.5 from a generic angle), paired interleaved or nested. X* = 0: the result must be an endpoint lying on the closed other edge (exact) or within the bound of both edges, identical in all 8 forms." + ruleCommon,
-		Quick: 60000, Thorough: 2500000}, genCollinear, checkQuad)
+		Rule:  "Four points exactly on one great circle (9 planes that survive normalisation; positions ±1e-300…1.5 from an axis or ±1e-15…1.5 from a generic angle), paired interleaved or nested. X* = 0: the result must be an endpoint lying on the closed other edge (exact) or within the bound of both edges, identical in all 8 forms." + ruleCommon,
+		Quick: 120000, Thorough: 6000000}, genCollinear, checkQuad)
 }
